@@ -94,6 +94,7 @@ def _mesh_variants(et, d, tier):
         v.append(("T", 1, True, 0, "", "identity"))       # one corner displaced: slanted edges
         if tp == "TRI" and not mixed:
             v.append(("T", 2, False, 1, "", "identity"))  # other diagonal
+        v.append(("T", 2, False, 0, "", "lifted"))        # (simulations that accept a plane mesh anywhere in space)
     else:
         if tp in ("HEXA", "TETRA") and not mixed:
             v.append(("T", 2, True, 0, "", "identity"))   # volume loads only
@@ -141,6 +142,8 @@ def cases(tier, seed):
                 if mixed and sim.startswith("weakforms"):
                     continue  # a Field lives on one element group
                 for vi, var in enumerate(variants):
+                    if var[5] == "lifted" and sim not in ("thermal", "weakforms1"):
+                        continue
                     for t in ([1.0, 0.7] if d == 2 else ([1.0] if d == 1 else [1.0, 0.7])):
                         if d == 3 and t != 1.0 and sim not in ("elastic", "thermal"):
                             continue  # 3D: the thickness must not enter; two models accept the parameter
@@ -148,7 +151,7 @@ def cases(tier, seed):
                             # complete in (element type x load x selection x form) for the elastic simulation on every mesh
                             # variant; every other simulation on the default template and on the gmsh mesh, thickness 0.7
                             if sim != "elastic":
-                                if not (vi == 0 or var[0] == "G") or t != (0.7 if d == 2 else 1.0):
+                                if not (vi == 0 or var[0] == "G" or var[5] == "lifted") or t != (0.7 if d == 2 else 1.0):
                                     continue
                                 if var[0] == "G" and d == 3 and sim not in ("thermal", "phasefield_u"):
                                     continue
@@ -234,6 +237,9 @@ def _affine_map(name, d):
     A = Z.generic_affine(r, d)
     b = np.zeros(3)
     b[:d] = r.uniform(-0.5, 0.5, size=d)
+    if name == "lifted":
+        # a plane mesh that does not lie in z = 0 (a plate at the height z = 1.1): element dimension 2, embedding dimension 3
+        b[2] = 1.1
     if name == "reflection":
         # generic affine map composed with a mirror: every element of the mesh is numbered clockwise (negative jacobians)
         M = np.eye(3)
